@@ -150,6 +150,9 @@ func (pk *PkgCtx) verifyFunc(key string, con *FuncContract) *FuncReport {
 	fx.run()
 	rep.Aborted = fx.aborted
 	rep.Paths = fx.paths
+	if con.NoSafety {
+		fx.c.unsup("run-time checks (index, nil, division) are assumed to pass in this function (nosafety): only the stated clauses are proved")
+	}
 	rep.SpecErrs = fx.specErrs
 	for u := range fx.c.unsupported {
 		rep.Unsupported = append(rep.Unsupported, u)
@@ -394,7 +397,7 @@ func cmdVerify(args []string) {
 								if len(g) > 300 {
 									g = g[:300] + "..."
 								}
-								fmt.Printf("       path %s: %s %s\n         goal: %s\n", in.Path, in.Verdict, firstLine(in.Output), g)
+								fmt.Printf("       path %s: %s %s %s\n         goal: %s\n", in.Path, in.Verdict, firstLine(in.Output), in.File, g)
 							}
 						}
 					}
